@@ -127,6 +127,7 @@ func checkC12(c *CheckCtx) error {
 			c.sample(map[string]any{"source": cfg, "sequence": cs, "note": sc.Note})
 		}
 	}
+	scs = append(scs, houseOptions()...)
 	for _, h := range hugeDoc() {
 		// nothing of a call may stick to the package-level defaults other Configs are copied from
 		h.Tags = append(h.Tags, "also:C12")
@@ -214,6 +215,34 @@ func reformatted(api, tag string) []*Scenario {
 					sc.Note = fmt.Sprintf("%s value written with %s, addressed with %s in mode %s", api, first, second, mode)
 					out = append(out, sc)
 				}
+			}
+		}
+	}
+	return out
+}
+
+// houseOptions: two Configs built from the same option VALUES (a project-wide option list), one of
+// them with a further JSON option. Building or using one must not change the other: each formats as
+// a fresh Config built from its own options does.
+func houseOptions() []*Scenario {
+	doc := `{"b":{"y":[1,2,{"z":"w"}]},"a":{"x":1}}`
+	var out []*Scenario
+	n := 0
+	for _, api := range []string{"json", "sjson"} {
+		for _, own := range []*JSONCfg{{Width: 80, Indent: "\t", SortKeys: false}, {Width: 80, Indent: "      ", SortKeys: true}} {
+			for _, who := range []string{"h", "h2"} {
+				n++
+				sc := &Scenario{ID: fmt.Sprintf("ho%d", n), Configs: stdConfigs(), Program: []string{"TestA"}, Tags: []string{"also:C12"}}
+				sc.Configs["h"] = &Cfg{Dir: sp("@/snaps"), JSON: &JSONCfg{Width: 40, Indent: "  ", SortKeys: true}}
+				sc.Configs["h2"] = &Cfg{Dir: sp("@/snaps"), JSON: own, House: "h"}
+				mk := func(fresh bool) []*Step {
+					return []*Step{{Op: "begin", Name: "TestA"}, {Op: "match", Name: "TestA", API: api, Cfg: who, Val: strVal(doc), Fresh: fresh}, {Op: "end", Name: "TestA"}}
+				}
+				sc.Procs = append(sc.Procs, &Proc{Spec: procSpec("default"), Steps: mk(false)})
+				sc.Procs = append(sc.Procs, &Proc{Spec: procSpec("ci"), Steps: mk(true)})
+				sc.Procs = append(sc.Procs, &Proc{Spec: procSpec("ci"), Steps: mk(false)})
+				sc.Note = fmt.Sprintf("Configs h and h2 share option values (h2 adds a JSON option); %s through %s, then through a fresh Config built from its options alone", api, who)
+				out = append(out, sc)
 			}
 		}
 	}
